@@ -1,17 +1,21 @@
 // Line-protocol harness for Sha256 (property C17).  Executes the op lines of
 // lean/Nstd/Sha/Driver.lean on the real src/Crypto/Sha256.cpp + include/nstd/Crypto/Sha256.hpp.
 // Inputs are handed over as exactly sized heap copies (ASan sees one-past reads); the hasher
-// object lives in poisoned storage so that nothing depends on a lucky initial buffer content.
+// object lives in poisoned (0xAA) storage so that nothing depends on a lucky initial buffer content.
 #include "common/hx.h"
 #include <nstd/Crypto/Sha256.hpp>
 
-alignas(Sha256) static unsigned char storage[sizeof(Sha256)];
+// the object lives in an exactly sized heap block: `buffer` is its last member, so a write past
+// buffer[63] (or before state[0]) lands in an ASan redzone
+static void* storage;
 static Sha256* sha;
 
 static void fresh()
 {
   if(sha) sha->~Sha256();
-  memset(storage, 0xAA, sizeof(storage));
+  free(storage);
+  storage = malloc(sizeof(Sha256));
+  memset(storage, 0xAA, sizeof(Sha256));
   sha = new(storage) Sha256;
 }
 
